@@ -15,8 +15,6 @@ struct vfile {
   u64 woff[ENVF_LOGCAP], wlen[ENVF_LOGCAP]; u32 wseq[ENVF_LOGCAP];
 };
 static u32 envf_seq;
-u8 X_G_stdout_obj, X_G_stderr_obj;
-u8 *X_G_stdout = &X_G_stdout_obj, *X_G_stderr = &X_G_stderr_obj;
 static struct vfile *mk(u64 cap)
 {
   struct vfile *f = malloc(sizeof(struct vfile)); ENV_ASSUME(f != 0);
@@ -100,3 +98,4 @@ u32 X_fputc(u32 c, u8 *h) { (void)h; return c; }
 u32 X_fprintf(u8 *h, u8 *fmt, ...) { (void)h; (void)fmt; return 0; }
 u32 X_printf(u8 *fmt, ...) { (void)fmt; return 0; }
 u32 X_puts(u8 *s) { (void)s; return 0; }
+void envf_seek(u8 *h, u64 pos) { X_fseek(h, pos, 0); }
